@@ -35,7 +35,7 @@ def main():
         "the submit wake-up order by C02 (second-wave scenario), the SemLock registration order by C13 (KP-mode), the cancelled-future fix by C06, the callable class wrapper by C16, "
         "the pickler-at-submit fix by C15, the feeder-thread leak fix (de484b1) by C20 (9 violations), the falsy-exception fix (3379a02) by C04 (20), the resize wake-up (7c02613) by C10 "
         "(stall), the `_feed` IndexError/EPIPE fix (d4feef7) by C04 (stall), the tracker sweep warning fix (1467094) by C13 (semaphore_outlives_tree), the initializer depth fix (c46ba04) "
-        "by C19 (47), the sticky kill request (8023c31) by C06 (4 violations when run against the parent commit). The management-lock fix (749efe4) is reproduced by `python -m harness.findings_repro F7` on a reverted tree; 177a206 does not revert cleanly (a later commit touches "
+        "by C19 (47), the sticky kill request (8023c31) by C06 (4 violations when run against the parent commit), the unpicklable-exception repair (00fe341) by C04 (2818 violations of a quick run on the parent commit, every program that draws task kind `raise_unpicklable`). The management-lock fix (749efe4) is reproduced by `python -m harness.findings_repro F7` on a reverted tree; 177a206 does not revert cleanly (a later commit touches "
         "the same lines) and was validated only when it was made.\n\n"
         "Two changes delivered by second-round agents were dropped because a repair made meanwhile turned them harmless (their demonstrations pass on the current tree with the patch applied): "
         "a C04 change that made `Queue._feed` treat EBADF/ECONNRESET from `dumps()` as a closed pipe (the d4feef7 repair handles pickling errors before that test), and a C19 change that "
